@@ -69,7 +69,7 @@ def main():
             "engine": "mirfacts+sa",
             "level_claimed": {"category": "other", "text": text, "design_ref": "DESIGN.md section " + ref},
             "level_note": TB,
-            "technique": "static analysis: " + tech + "; plus, for the property's anchor files, the table-driven loop-structure rule T10 (must-reach calls / early exits / carried state per loop), the update-order table T16 (loop-carried variables read on the same side of their in-iteration overwrite as on the reference tree), the stale-element lint T11, the accessor range table T12, the member-test lint T13 and sibling cross-checks, applied to the functions reachable from the property's mechanism (DESIGN 11.7)",
+            "technique": "static analysis: " + tech + "; plus, for the property's anchor files, the table-driven loop-structure rule T10 (must-reach calls / early exits / carried state per loop), the update-order table T16 (loop-carried variables read on the same side of their in-iteration overwrite as on the reference tree), the component-flow table T17 (which tuple component reaches which argument slot), the stale-element lint T11, the accessor range table T12, the member-test lint T13 and sibling cross-checks, applied to the functions reachable from the property's mechanism (DESIGN 11.7)",
         })
     na = []
     for p in props:
